@@ -9872,17 +9872,19 @@ struct PreReactWrapperT<TRegion, BottomUp> {
 			HeadState& headState = static_cast<HeadState&>(region);
 			SubStates& subStates = static_cast<SubStates&>(region);
 
-			const TaskStatus h =
+			HFSM2_IF_PLANS(region. subStatus(control) |=)
 				subStates.widePreReact(control, event, active);
-			HFSM2_IF_PLANS(region. subStatus(control) |= h);
 
-			if (!control._consumed)
-				HFSM2_IF_PLANS(region.headStatus(control) |=)
+			if (!control._consumed) {
+				const TaskStatus h =
 					headState.deepPreReact(control, event);
+				HFSM2_IF_PLANS(region.headStatus(control) |= h);
 
-			return h;
-		} else
-			return TaskStatus{};
+				return h;
+			}
+		}
+
+		return TaskStatus{};
 	}
 
 	template <typename TEvent>
@@ -9897,17 +9899,19 @@ struct PreReactWrapperT<TRegion, BottomUp> {
 			HeadState& headState = static_cast<HeadState&>(region);
 			SubStates& subStates = static_cast<SubStates&>(region);
 
-			const TaskStatus h =
+			HFSM2_IF_PLANS(region. subStatus(control) |=)
 				subStates.widePreReact(control, event);
-			HFSM2_IF_PLANS(region. subStatus(control) |= h);
 
-			if (!control._consumed)
-				HFSM2_IF_PLANS(region.headStatus(control) |=)
+			if (!control._consumed) {
+				const TaskStatus h =
 					headState.deepPreReact(control, event);
+				HFSM2_IF_PLANS(region.headStatus(control) |= h);
 
-			return h;
-		} else
-			return TaskStatus{};
+				return h;
+			}
+		}
+
+		return TaskStatus{};
 	}
 
 };
@@ -9995,17 +9999,19 @@ struct ReactWrapperT<TRegion, BottomUp> {
 			HeadState& headState = static_cast<HeadState&>(region);
 			SubStates& subStates = static_cast<SubStates&>(region);
 
-			const TaskStatus h =
+			HFSM2_IF_PLANS(region. subStatus(control) |=)
 				subStates.wideReact(control, event, active);
-			HFSM2_IF_PLANS(region. subStatus(control) |= h);
 
-			if (!control._consumed)
-				HFSM2_IF_PLANS(region.headStatus(control) |=)
+			if (!control._consumed) {
+				const TaskStatus h =
 					headState.deepReact(control, event);
+				HFSM2_IF_PLANS(region.headStatus(control) |= h);
 
-			return h;
-		} else
-			return TaskStatus{};
+				return h;
+			}
+		}
+
+		return TaskStatus{};
 	}
 
 	template <typename TEvent>
@@ -10020,17 +10026,19 @@ struct ReactWrapperT<TRegion, BottomUp> {
 			HeadState& headState = static_cast<HeadState&>(region);
 			SubStates& subStates = static_cast<SubStates&>(region);
 
-			const TaskStatus h =
+			HFSM2_IF_PLANS(region. subStatus(control) |=)
 				subStates.wideReact(control, event);
-			HFSM2_IF_PLANS(region. subStatus(control) |= h);
 
-			if (!control._consumed)
-				HFSM2_IF_PLANS(region.headStatus(control) |=)
+			if (!control._consumed) {
+				const TaskStatus h =
 					headState.deepReact(control, event);
+				HFSM2_IF_PLANS(region.headStatus(control) |= h);
 
-			return h;
-		} else
-			return TaskStatus{};
+				return h;
+			}
+		}
+
+		return TaskStatus{};
 	}
 
 };
@@ -10122,16 +10130,15 @@ struct PostReactWrapperT<TRegion, BottomUp> {
 			HeadState& headState = static_cast<HeadState&>(region);
 			SubStates& subStates = static_cast<SubStates&>(region);
 
-			HFSM2_IF_PLANS(region.headStatus(control) |=)
+			const TaskStatus h =
 				headState.deepPostReact(control, event);
+			HFSM2_IF_PLANS(region.headStatus(control) |= h);
 
-			if (control._consumed == false) {
-				const TaskStatus h =
+			if (control._consumed == false)
+				HFSM2_IF_PLANS(region. subStatus(control) |=)
 					subStates.widePostReact(control, event, active);
-				HFSM2_IF_PLANS(region. subStatus(control) |= h);
 
-				return h;
-			}
+			return h;
 		}
 
 		return TaskStatus{};
@@ -10149,16 +10156,15 @@ struct PostReactWrapperT<TRegion, BottomUp> {
 			HeadState& headState = static_cast<HeadState&>(region);
 			SubStates& subStates = static_cast<SubStates&>(region);
 
-			HFSM2_IF_PLANS(region.headStatus(control) |=)
+			const TaskStatus h =
 				headState.deepPostReact(control, event);
+			HFSM2_IF_PLANS(region.headStatus(control) |= h);
 
-			if (control._consumed == false) {
-				const TaskStatus h =
+			if (control._consumed == false)
+				HFSM2_IF_PLANS(region. subStatus(control) |=)
 					subStates.widePostReact(control, event);
-				HFSM2_IF_PLANS(region. subStatus(control) |= h);
 
-				return h;
-			}
+			return h;
 		}
 
 		return TaskStatus{};
